@@ -31,6 +31,7 @@ const (
 	c06withdrawnLenOverrun
 	c06missingAsPath
 	c06missingOrigin
+	c06medPartial
 	c06nFaults
 )
 
@@ -40,7 +41,7 @@ func c06class(f int, ebgp bool) ErrorHandling {
 	case c06none:
 		return ERROR_HANDLING_NONE
 	case c06originValue, c06originLength, c06originFlags, c06nexthopValue, c06aspathSegType, c06medLength, c06missingNexthop,
-		c06communitiesLength, c06nexthopLength, c06aspathOverrun, c06missingAsPath, c06missingOrigin:
+		c06communitiesLength, c06nexthopLength, c06aspathOverrun, c06missingAsPath, c06missingOrigin, c06medPartial:
 		return ERROR_HANDLING_TREAT_AS_WITHDRAW
 	case c06dupMed, c06aggregatorLength, c06atomicWithValue:
 		return ERROR_HANDLING_ATTRIBUTE_DISCARD
@@ -148,6 +149,14 @@ func (m *c06msg) inject(f int) {
 		m.attrs = append(m.attrs[:1:1], m.attrs[2:]...)
 	case c06missingOrigin:
 		m.attrs = m.attrs[1:]
+	case c06medPartial:
+		// MED is optional non-transitive: the Partial bit must be 0 (RFC 4271 4.3); a flags error is
+		// treat-as-withdraw (RFC 7606 3.c). MED is the last base attribute whatever was removed before.
+		for i := range m.attrs {
+			if m.attrs[i][1] == byte(BGP_ATTR_TYPE_MULTI_EXIT_DISC) {
+				m.attrs[i][0] |= 0x20
+			}
+		}
 	}
 }
 
@@ -189,7 +198,7 @@ func c06compatible(f1, f2 int) bool {
 			return 2
 		case c06aspathSegType, c06confedSegment, c06aspathOverrun, c06missingAsPath:
 			return 3
-		case c06medLength, c06dupMed:
+		case c06medLength, c06dupMed, c06medPartial:
 			return 4
 		case c06totalLenOverrun, c06prefixLen, c06withdrawnLenOverrun:
 			return 5
